@@ -218,9 +218,10 @@ CliOf(op, o, R) ==
 \* operations that have a command-line twin in the harness (harness/heap_cli.go)
 CliOps == {"RemoveGapSites", "RemoveCharacterSites", "RemoveMajorityCharacterSites", "RemoveGapSeqs", "RemoveCharacterSeqs",
            "ReverseComplement", "Sort", "Consensus", "DiffWithFirst", "ReplaceMatchChars", "Translate", "TranslateByReference",
-           "Deduplicate", "Compress", "Mask", "MaskOccurences", "MaskUnique", "SubAlign", "Replace"} \cup CliQueryOps
+           "Deduplicate", "Compress", "Mask", "MaskOccurences", "MaskUnique", "SubAlign", "Replace",
+           "ShuffleSequences", "Swap", "Recombine", "Mutate", "AddGaps", "Sample", "SampleSeqBag", "RandSubAlign"} \cup CliQueryOps
 
-CliCreators == {"Consensus", "SubAlign"}      \* the command prints the object the operation creates, not the receiver
+CliCreators == {"Consensus", "SubAlign", "Sample", "SampleSeqBag", "RandSubAlign"}      \* the command prints the object the operation creates, not the receiver
 
 \* the clauses of the properties that a return value meets only in case-folded form
 FoldedOK(op, a, exp, obs) ==
